@@ -1,4 +1,5 @@
 import PhyVerif.Model.C13
+import PhyVerif.Model.C13b
 import PhyVerif.Lemmas.C13
 /-!
 # C13 — ALF export writes consistent object tables that load back to the same spikes
@@ -41,5 +42,25 @@ theorem uuid_rows (src out label : String) (s : Sizes) (files : List (Name × Na
 /-! Non-vacuity -/
 example : withLabel "probe00" ["spikes", "times", "npy"] = ["spikes", "times", "probe00", "npy"] := by decide
 example : (convert "a" "b" "p0" ⟨5, 3, 2, 4⟩).map (·.length) = some 18 := by decide
+
+end PhyVerif.C13
+
+namespace PhyVerif.C13
+open PhyVerif.C04
+
+/-- Round trip (composition with the loader model of C04): loading the directory written by the
+export — with ANY label, even one containing `*` or `.npy` — succeeds and shows the source's spike times, samples, clusters,
+templates, amplitudes, channel map and positions. -/
+theorem reload_eq_source (inv : Arr → Arr) (label : String) (s : Source) (h : SourceOK s) :
+    ∃ v d', load inv (exportDir label s) = .ok (v, d') ∧
+      v.times = .stored (vec s.times) ∧ v.samples = .file (vec s.samples) ∧
+      v.spikeClusters = vec s.clusters ∧ v.spikeTemplates = vec s.templates ∧
+      v.amplitudes = some (vec s.amps) ∧ v.channelMap = vec s.channelMap ∧
+      v.channelPositions = ⟨[s.channelMap.length, 2], s.positions.map Cell.num⟩ :=
+  Lemmas.reload_eq_source inv label s h
+
+example : labelled "probe00" "spikes.times" = "spikes.times.probe00.npy" := by decide
+example : globMatch "spikes.times*.npy" (labelled "probe00" "spikes.times") = true := by decide
+example : globMatch "templates.waveforms.*.npy" (labelled "p" "templates.waveformsChannels") = false := by decide
 
 end PhyVerif.C13
